@@ -1,0 +1,70 @@
+//go:build verif
+
+// Verification hook for property C07 (add-only, compiled only with -tags verif):
+// direct access to the unexported scanners of the rule parser and to the directive table.
+
+package seclang
+
+import (
+	"sort"
+
+	"github.com/corazawaf/coraza/v3/internal/corazawaf"
+	"github.com/corazawaf/coraza/v3/internal/io"
+	"github.com/corazawaf/coraza/v3/types"
+)
+
+// VerifC07DirectiveNames returns every key of directivesMap (plus the hardcoded "include").
+func VerifC07DirectiveNames() []string {
+	names := make([]string, 0, len(directivesMap)+1)
+	for k := range directivesMap {
+		names = append(names, k)
+	}
+	names = append(names, "include")
+	sort.Strings(names)
+	return names
+}
+
+// VerifC07CutQuotedString calls cutQuotedString.
+func VerifC07CutQuotedString(s string) (string, string, error) { return cutQuotedString(s) }
+
+// VerifC07ParseActionOperator calls parseActionOperator.
+func VerifC07ParseActionOperator(data string) (vars, op, actions string, err error) {
+	return parseActionOperator(data)
+}
+
+// VerifC07ParseActions calls parseActions (no logger) and returns the (key, value) pairs.
+func VerifC07ParseActions(actions string) ([][2]string, error) {
+	acts, err := parseActions(nil, actions)
+	if err != nil {
+		return nil, err
+	}
+	res := make([][2]string, 0, len(acts))
+	for _, a := range acts {
+		res = append(res, [2]string{a.Key, a.Value})
+	}
+	return res, nil
+}
+
+func verifC07Parser(waf *corazawaf.WAF, dir string) RuleParser {
+	rule := corazawaf.NewRule()
+	if waf != nil {
+		rule.SetMemoizer(waf.Memoizer())
+	}
+	return RuleParser{
+		options:        RuleOptions{WAF: waf, ParserConfig: ParserConfig{Root: io.OSFS{}, ConfigDir: dir}},
+		rule:           rule,
+		defaultActions: map[types.RulePhase][]ruleAction{},
+	}
+}
+
+// VerifC07ParseVariables runs RuleParser.ParseVariables on a fresh rule.
+func VerifC07ParseVariables(waf *corazawaf.WAF, vars string) error {
+	rp := verifC07Parser(waf, "")
+	return rp.ParseVariables(vars)
+}
+
+// VerifC07ParseOperator runs RuleParser.ParseOperator on a fresh rule (files resolved under dir).
+func VerifC07ParseOperator(waf *corazawaf.WAF, dir string, operator string) error {
+	rp := verifC07Parser(waf, dir)
+	return rp.ParseOperator(operator)
+}
